@@ -129,7 +129,7 @@ Proof.
     + intros u Hu W. destruct (Nat.eq_dec u t) as [->|Ne].
       * rewrite upd_same in W. discriminate.
       * rewrite upd_other in W by assumption. apply (f_wait s I); assumption.
-    + apply (f_full s I).
+    + intros H. destruct (f_full s I H) as [X Y]. rewrite X. split; [reflexivity|exact Y].
   - cbn [step] in St. destruct (rx s) eqn:RX; try discriminate. destruct (_ || _) in St; [|discriminate].
     inversion St; subst. apply finv_closed; [exact I|discriminate].
   - cbn [step] in St. destruct (rx s) eqn:RX; try discriminate; inversion St; subst;
@@ -154,4 +154,86 @@ Proof.
   pose proof (f_wait s I t Lt W) as InT.
   assert (NE : sw s <> []) by (intro E; rewrite E in InT; destruct InT).
   destruct (f_full s I NE) as [_ F]. unfold has_room in Room. rewrite F in Room. discriminate.
+Qed.
+
+(* ------------------------------------------------------------------ the receiver's side *)
+
+(* while the receiver is parked: the buffer is empty, its waker is registered, and some sender
+   is still alive -- for every policy (every way a sender goes away wakes the receiver) *)
+Record RInv (s : state) : Prop := mkRInv {
+  r_parked : rx s = RxOpen -> rx_woken s = false -> rx_done s = false ->
+             buf s = [] /\ rw s = true /\ exists t, t < ntasks s /\ alive (tasks s t) = true
+}.
+
+Lemma poll_sends_quiet : forall c r t xs ch rem os ws ch',
+  poll_sends c r t xs ch = (rem, os, ws, ch') ->
+  c_rw ch = true -> existsb is_wrecv ws = false ->
+  c_buf ch' = c_buf ch /\ c_rw ch' = true.
+Proof.
+  intros c r t xs. induction xs as [|x xs IH]; intros ch rem os ws ch' E Rw Q; cbn in E.
+  - inversion E; subst. split; [reflexivity|exact Rw].
+  - destruct (send1 c r t x ch) as [[[pend o1] w1] ch1] eqn:S1.
+    destruct (poll_sends c r t xs ch1) as [[[rem2 os2] ws2] ch2] eqn:P2.
+    inversion E; subst; clear E. rewrite existsb_app in Q. apply orb_false_iff in Q. destruct Q as [Q1 Q2].
+    unfold send1 in S1. destruct r.
+    + destruct (full c (c_buf ch)).
+      * inversion S1; subst. cbn in *. apply (IH _ _ _ _ _ P2); assumption.
+      * inversion S1; subst. rewrite Rw in Q1. cbn in Q1. discriminate.
+    + inversion S1; subst. apply (IH _ _ _ _ _ P2); assumption.
+    + inversion S1; subst. apply (IH _ _ _ _ _ P2); assumption.
+Qed.
+
+Lemma count_alive_pos : forall n f, count_alive n f <> 0 -> exists t, t < n /\ alive (f t) = true.
+Proof.
+  induction n as [|n IH]; intros f H; cbn in H; [contradiction|].
+  destruct (alive (f n)) eqn:A.
+  - exists n. split; [lia|exact A].
+  - cbn in H. destruct (IH f H) as [t [Lt At]]. exists t. split; [lia|exact At].
+Qed.
+
+Lemma rinv_step : forall p s l s' o, RInv s -> step p s l = Some (s', o) -> RInv s'.
+Proof.
+  intros p s l s' o I St. destruct l; cbn [step] in St.
+  - (* Poll *)
+    destruct (Nat.ltb t (ntasks s)) eqn:Lt; [|discriminate]. apply Nat.ltb_lt in Lt.
+    destruct (_ && _) in St; [|discriminate].
+    destruct (poll_sends _ _ _ _ _) as [[[rem os] ws] ch] eqn:PS.
+    inversion St; subst; clear St. constructor; cbn. intros RX A D.
+    apply orb_false_iff in A. destruct A as [A1 A2].
+    destruct (r_parked s I RX A1 D) as [Bf [Rw _]].
+    destruct (poll_sends_quiet _ _ _ _ _ _ _ _ _ PS Rw A2) as [E1 E2]. cbn in E1.
+    split; [rewrite E1; exact Bf|]. split; [exact E2|].
+    exists t. split; [exact Lt|]. rewrite upd_same. reflexivity.
+  - (* PollRx *)
+    destruct (_ && _) in St; [|discriminate].
+    destruct (buf s) as [|v b'] eqn:Bf.
+    + destruct (Nat.eqb _ 0) eqn:W; inversion St; subst; clear St; constructor; cbn.
+      * intros _ _ H. discriminate.
+      * intros RX _ _. split; [reflexivity|]. split; [reflexivity|].
+        rewrite RX in W. apply Nat.eqb_neq in W. apply count_alive_pos. exact W.
+    + inversion St; subst; clear St. constructor; cbn. intros _ H. discriminate.
+  - (* DropSender: Drop wakes the parked receiver *)
+    destruct (_ && _) in St; [|discriminate]. inversion St; subst; clear St.
+    constructor; cbn. intros RX A D. rewrite RX in A. apply orb_false_iff in A. destruct A as [A1 A2].
+    destruct (r_parked s I RX A1 D) as [_ [Rw _]]. congruence.
+  - (* CloseSender: so does close_this_sender *)
+    destruct (_ && _) in St; [|discriminate]. inversion St; subst; clear St.
+    constructor; cbn. intros RX A D. rewrite RX in A. apply orb_false_iff in A. destruct A as [A1 A2].
+    destruct (r_parked s I RX A1 D) as [_ [Rw _]]. congruence.
+  - destruct (rx s); try discriminate. destruct (_ || _) in St; [|discriminate].
+    inversion St; subst. constructor; cbn. intros H. discriminate.
+  - destruct (rx s); try discriminate; inversion St; subst; constructor; cbn; intros H; discriminate.
+Qed.
+
+Theorem no_rx_strand_all : forall p c progs tr s,
+  reachable p (init c progs) tr s -> ~ RxStranded s.
+Proof.
+  intros p c progs tr s R.
+  assert (I : RInv s).
+  { induction R; [constructor; cbn; intros _ H; discriminate|eapply rinv_step; eassumption]. }
+  intros [_ [RR [RX [RD Learn]]]].
+  unfold rx_runnable, rx_alive in RR. rewrite RX, RD in RR. cbn in RR. rewrite andb_true_r in RR.
+  destruct (r_parked s I RX RR RD) as [Bf [_ [t [Lt A]]]].
+  destruct Learn as [NE|Dead]; [apply NE; exact Bf|].
+  rewrite (Dead t Lt) in A. discriminate.
 Qed.
